@@ -1476,8 +1476,8 @@ func main() {
 
 	// cross-check: every interface used by a field is a class of ClassConstructorsMap
 	rounds := c.N(1, 50)
-	coqValues := c.N(120, 2500)
-	coqMutants := c.N(80, 1500)
+	coqValues := c.N(120, 700)
+	coqMutants := c.N(80, 400)
 	total := 0
 	for _, reg := range h.regs {
 		total += len(reg.ids)
@@ -1598,7 +1598,7 @@ func main() {
 				k++
 				switch {
 				case c.Thorough():
-					h.stringTails(reg, id, c.Rng, []int{1, 2, 3, 5, 253, 254, 255, 256, 257, 65535, 65537}, 200)
+					h.stringTails(reg, id, c.Rng, []int{1, 2, 3, 5, 253, 254, 255, 256, 257, 65535, 65537}, 900)
 				case reg.sch != 0:
 					h.stringTails(reg, id, c.Rng, []int{2, 5, 253, 254, 257}, 25)
 				case k%3 == 0:
@@ -1619,7 +1619,7 @@ func main() {
 				for _, st := range h.vectorSites(reg, id, c.Rng) {
 					nSites++
 					if c.Thorough() || reg.sch != 0 {
-						h.countBoundaries(st, allVals, 30)
+						h.countBoundaries(st, allVals, 90)
 					} else {
 						h.countBoundaries(st, quickVals, 60)
 					}
